@@ -976,7 +976,9 @@ def estimate(seq,label=None):
     if isinstance(mu,complex):
         u,r = standard_uncertainty(seq,mu)
         return ucomplex(
-            mu,u[0],u[1],r,df,
+            mu,u[0],u[1],
+            r if r != 0.0 else None,    # an independent Leaf has no correlation register
+            df,
             label,
             independent = (r == 0.0)
         )
